@@ -50,4 +50,24 @@ CHECKS["C04"] = {
     "note": "Trusted as C03. Multi-line items declaring a width are not generated (statement silent). Alignment values other than the library's three are not generated.",
     "technique": MBT,
 }
+CHECKS["C05"] = {
+    "text": "The expected records (header, then each non-separator row, padded to the column count) and a strict RFC 4180 all-fields-quoted reader are TLA+ operators (CsvRecords, CsvParse); TLC checks on all small grids over hostile symbols (quote, comma, CR, LF, ragged and zero-cell rows and headers, separators anywhere) that the implementation-shaped emitter's bytes read back to exactly the records; every such grid (literally and under byte-string substitution incl. NUL, 0xFF, invalid UTF-8) and random byte-string tables are rendered by the real library and TLC parses the real output bytes with the same strict reader and compares; zero columns must be refused with no text.",
+    "note": "Trusted: Latin-1 transport of bytes through JSON on both sides; TLC's string operators. Both LF and CRLF record terminators are accepted.",
+    "technique": MBT,
+}
+CHECKS["C06"] = {
+    "text": "The fixed tag skeleton (table [class] [id], optional caption, thead/tr/th*, tbody/(tr/td*)*, row class iff a generator is set, generator called with 0 and each non-separator row's position) is a TLA+ operator producing the expected token sequence; every small grid x option set and random tables with markup-hostile strings in every context are rendered by the real library, tokenised by a strict tokenizer, and TLC compares token by token (texts and attribute values entity-decoded) and the generator's call log.",
+    "note": "Trusted: the hand-written strict tokenizer with hostile self-tests (lex.go) and html.UnescapeString. NUL / invalid UTF-8 are outside the stated alphabets.",
+    "technique": MBT,
+}
+CHECKS["C07"] = {
+    "text": "Error cases (missing / short / empty / duplicate headers, no columns, non-boolean skipable, unencodable item) and the expected array of key->value maps (skipable resolution own > column 0, fallback to the text when the item encodes as {}) are TLA+ operators; the comma machine is an implementation-shaped token emitter checked by TLC for well-formedness over all row/separator sequences up to length 5-6; every sequence, every small content/skipable/header combination (with hostile-string substitution) and random tables over items of every JSON kind are rendered by the real library; TLC validates validity, object count and order, and each object's key/value set (canonical JSON) or the error-and-no-text rule.",
+    "note": "Trusted: encoding/json as the statement's oracle for values (logged canonically), its streaming decoder for reading the output.",
+    "technique": MBT,
+}
+CHECKS["C08"] = {
+    "text": "The GFM structure (line count, ncols+1 unescaped pipes per line, nothing outside the outer pipes, delimiter cells with >= 3 dashes and the colons of the effective alignment own > column 0, decoded trimmed cell = trimmed text, nothing raw, refusal without header or columns) is a TLA+ relation; all small grids over hostile texts (pipes, backslash-pipe, newlines, markup, entities), ragged and zero-cell rows and headers, every alignment assignment, plus random tables are rendered by the real library, split at unescaped pipes, and validated by TLC.",
+    "note": "Trusted: the pipe splitter and raw-markup flags of lex.go (self-tested), html.UnescapeString. Carriage returns are not generated (documented non-goal).",
+    "technique": MBT,
+}
 NOT_APPLICABLE = {}
